@@ -80,6 +80,7 @@ ASSIGN = {"=", "+=", "-=", "*=", "/="}
 class P:
     def __init__(self, toks):
         self.t, self.i = toks, 0
+        self.ns = 0          # > 0 while parsing a condition / scrutinee (no struct literals there)
 
     def peek(self, k=0):
         return self.t[self.i + k] if self.i + k < len(self.t) else ("eof", "")
@@ -374,11 +375,35 @@ class P:
                     self.skip_generics()
                     continue
                 path += "::" + self.next()[1]
+            if self.at("{") and self.ns == 0 and path[:1].isupper() and "::" not in path:
+                # struct literal `Name { field: expr, field, … }`
+                self.next()
+                fields = []
+                while not self.at("}"):
+                    fk, fv = self.next()
+                    if fk != "id":
+                        raise Unsupported("struct literal field")
+                    if self.at(":"):
+                        self.next()
+                        saved, self.ns = self.ns, 0
+                        fe = self.expr()
+                        self.ns = saved
+                    else:
+                        fe = ("path", fv)
+                    fields.append((fv, fe))
+                    if self.at(","):
+                        self.next()
+                self.eat("}")
+                return ("struct", path, fields)
             return ("path", path)
         raise Unsupported(f"expression at {v!r}")
 
     def expr_nostruct(self):
-        return self.expr()
+        self.ns += 1
+        try:
+            return self.expr()
+        finally:
+            self.ns -= 1
 
     def match_pat(self):
         k, v = self.peek()
